@@ -20,6 +20,21 @@ type kRec struct {
 	size     int // record size (key+value)
 	deleted  bool
 	named    bool // exactly named by a freelist entry
+	file     uint32
+}
+
+// cancelCtx reports cancellation after a number of Err() checks.
+type cancelCtx struct {
+	context.Context
+	left int
+}
+
+func (c *cancelCtx) Err() error {
+	if c.left == 0 {
+		return context.Canceled
+	}
+	c.left--
+	return nil
 }
 
 type idxUpdate struct {
@@ -103,6 +118,7 @@ func Verif_KPGC() {
 	// freelist entries
 	F := vrt.Param("freelist", 2)
 	nf := vrt.Choose("nfree", F+1)
+	var entries []types.Block
 	for j := 0; j < nf; j++ {
 		var blk types.Block
 		blk.Size = types.Size(vrt.U32("free-size"))
@@ -125,6 +141,39 @@ func Verif_KPGC() {
 			blk.Offset = absolutePrimaryPos(0, 7, maxFileSize)
 		}
 		vrt.Assert(fl.Put(blk) == nil, "setup")
+		entries = append(entries, blk)
+	}
+	flPath := filepath.Join(dir, "free")
+	// pending returns the freelist entries not yet consumed by GC (pool, file, .gc)
+	pending := func() []types.Block {
+		out := fl.VerifPool()
+		for _, name := range []string{flPath, flPath + ".gc"} {
+			b, err := os.ReadFile(name)
+			if err != nil {
+				continue
+			}
+			for p := 0; p+12 <= len(b); p += 12 {
+				out = append(out, types.Block{Offset: types.Position(binary.LittleEndian.Uint64(b[p:])), Size: types.Size(binary.LittleEndian.Uint32(b[p+8:]))})
+			}
+		}
+		return out
+	}
+	// conservation (C13): an entry that exactly names a live record is applied or still pending
+	conserved := func(where string) {
+		pend := pending()
+		for i, rec := range append(append([]*kRec{}, recs...), cur...) {
+			if !rec.named || rec.deleted {
+				continue
+			}
+			old := types.Block{Offset: absolutePrimaryPos(types.Position(rec.start), rec.file, maxFileSize), Size: types.Size(rec.size)}
+			isPending := false
+			for _, p := range pend {
+				if p == old {
+					isPending = true
+				}
+			}
+			vrt.Assert(isPending || mp.VerifFreedOnDisk(old), "freelist-entry-applied-or-still-pending", "where", where, "rec", i)
+		}
 	}
 
 	var updates []idxUpdate
@@ -138,12 +187,28 @@ func Verif_KPGC() {
 	}
 	mp.StartGC(fl, 1<<40, 0, update)
 
+	for _, rec := range cur {
+		rec.file = 1
+	}
+	all := append(append([]*kRec{}, recs...), cur...)
+	locOf := func(rec *kRec) types.Block {
+		return types.Block{Offset: absolutePrimaryPos(types.Position(rec.start), rec.file, maxFileSize), Size: types.Size(rec.size)}
+	}
 	check := func(where string) {
-		for i, rec := range recs {
-			old := types.Block{Offset: absolutePrimaryPos(types.Position(rec.start), 0, maxFileSize), Size: types.Size(rec.size)}
+		pend := pending()
+		for i, rec := range all {
+			old := locOf(rec)
 			if rec.deleted || rec.named {
-				k, _, err := mp.Get(old)
-				vrt.Assert(err != nil || k == nil, "freed-record-reads-as-deleted", "where", where, "rec", i)
+				isPending := false
+				for _, p := range pend {
+					if p == old {
+						isPending = true
+					}
+				}
+				if !isPending {
+					k, _, err := mp.Get(old)
+					vrt.Assert(err != nil || k == nil || !mp.VerifFreedOnDisk(old) == false, "freed-record-reads-as-deleted", "where", where, "rec", i)
+				}
 				continue
 			}
 			// live: readable at the newest location the index was told about, else in place
@@ -168,24 +233,25 @@ func Verif_KPGC() {
 				}
 			}
 		}
-		for _, rec := range cur {
-			k, v, err := mp.Get(types.Block{Offset: absolutePrimaryPos(types.Position(rec.start), 1, maxFileSize), Size: types.Size(rec.size)})
-			if rec.named {
-				vrt.Assert(err != nil || k == nil, "freed-record-reads-as-deleted", "where", where)
-				continue
-			}
-			vrt.Assert(err == nil && k != nil, "current-file-record-untouched", "where", where)
-			if err == nil && k != nil {
-				vrt.Assert(bytes.Equal(k, rec.key), "current-file-record-untouched", "where", where)
-				vrt.Assert(bytes.Equal(v, rec.val), "current-file-record-untouched", "where", where)
-			}
-		}
 	}
 
 	lowUse := int64(vrt.Int("lowuse", 0, 100))
+	// optionally a first cycle whose context is cancelled after a few checks (Close or a
+	// time limit arriving mid-cycle); nothing may be lost by it
+	if nc := vrt.Param("ctxchecks", 0); nc > 0 {
+		if n := vrt.Choose("ctx-cancel-after", nc+1); n < nc {
+			_, err = mp.GC(&cancelCtx{Context: context.Background(), left: n}, lowUse)
+			_ = err // the cycle may complete before the cancellation is noticed
+			conserved("after-cancelled-cycle")
+			check("after-cancelled-cycle")
+			vrt.Cover("kpgc-cancelled")
+		}
+	}
 	_, err = mp.GC(context.Background(), lowUse)
 	vrt.Assert(err == nil, "gc-no-error")
+	conserved("after-cycle-1")
 	check("after-cycle-1")
+	n1 := len(updates) // relocations of the first completed cycle (and a cancelled one before it)
 	if len(updates) > 0 {
 		vrt.Cover("kpgc-relocated")
 	}
@@ -198,6 +264,25 @@ func Verif_KPGC() {
 	_, err = mp.GC(context.Background(), lowUse)
 	vrt.Assert(err == nil, "gc2-no-error")
 	check("after-cycle-2")
+	conserved("after-cycle-2")
+	// every location left behind by a relocation in cycle 1 has been freed by cycle 2
+	// (C13: relocated => freed exactly once; C11: the drained file can be released)
+	if !failUpdate {
+		for i, rec := range all {
+			if rec.deleted || rec.named {
+				continue
+			}
+			moved := 0
+			for _, u := range updates[:n1] {
+				if bytes.Equal(u.key, rec.key[2:]) {
+					moved++
+				}
+			}
+			if moved >= 1 {
+				vrt.Assert(mp.VerifFreedOnDisk(locOf(rec)), "relocated-record-old-location-freed", "rec", i)
+			}
+		}
+	}
 	vrt.Assert(mp.Close() == nil, "close-no-error")
 	vrt.Cover("kpgc-end")
 }
